@@ -119,11 +119,18 @@ def call_closure(m, f, args):
         # first parameter is the closure itself: by value (FnOnce) or by reference
         first_ty = fn.arg_tys[0] if fn.arg_tys else ''
         if first_ty.strip().startswith('&'):
-            a0 = f if isinstance(m.ctx.resolve(f), Ref) else Ref(Cell(fv))
+            # pass a reference to the closure value ITSELF (state captured with interior mutability must persist)
+            a0 = innermost_ref(m, f) if isinstance(m.ctx.resolve(f), Ref) else Ref(Cell(fv))
         else:
             a0 = fv
         return m.call_fn(name, [a0] + list(args))
     if isinstance(fv, Adt) and fv.ty in ('Box', 'Rc'):
+        r = m.ctx.resolve(f)
+        if isinstance(r, Ref):
+            r = innermost_ref(m, r)
+            inner = load(Ref(r.cell, r.path + (0,)), m.ctx.resolve)
+            if not isinstance(m.ctx.resolve(inner), Ref):
+                return call_closure(m, Ref(r.cell, r.path + (0,)), args)
         return call_closure(m, fv.fields[0], args)
     raise NotEncodable('call of non-closure %r' % (fv,))
 
